@@ -188,6 +188,8 @@ impl BlteBuilder {
             super::error::BlteError::CompressionError("No encryption config set".to_string())
         })?;
 
+        // The chunk table records the size of the decoded data, not of the encrypted payload
+        let decoded_size = data.len();
         let inner = self.build_inner_payload(data)?;
 
         // Encrypt the payload (mode byte + compressed/raw data)
@@ -197,7 +199,7 @@ impl BlteBuilder {
         Ok(ChunkData::from_compressed(
             CompressionMode::Encrypted,
             encrypted_data,
-            Some(inner.len()),
+            Some(decoded_size),
         ))
     }
 
@@ -209,6 +211,8 @@ impl BlteBuilder {
         key: [u8; 16],
         block_index: usize,
     ) -> BlteResult<ChunkData> {
+        // The chunk table records the size of the decoded data, not of the encrypted payload
+        let decoded_size = data.len();
         let inner = self.build_inner_payload(data)?;
 
         // Encrypt the payload (mode byte + compressed/raw data)
@@ -217,7 +221,7 @@ impl BlteBuilder {
         Ok(ChunkData::from_compressed(
             CompressionMode::Encrypted,
             encrypted_data,
-            Some(inner.len()),
+            Some(decoded_size),
         ))
     }
 
